@@ -64,6 +64,45 @@ def word_pairs(tree, out=None):
     return out
 
 
+# documents with `@typstyle off` directives at many places
+OFF_DOCS = [
+    '// @typstyle off\n#let   x  =  ( 1,2 )\n#let   y  =  ( 1,2 )\n', '/* @typstyle off */ #f( 1 ,2 )\n\n#f( 1 ,2 )\n',
+    '#{\n  let a = 1\n  // @typstyle off\n  let   x  =  ( 1,2 )\n  let   y  =  ( 1,2 )\n}\n', '#let x = /* @typstyle off */ (a   +  b)\n',
+    '#let z = (/* @typstyle off */ (a  +  b))\n', '#for /* @typstyle off */ ( a,b ) in c {}\n', '#let f(/* @typstyle off */ ( a,b ) , c ) = 1\n',
+    '#f(\n  // @typstyle off\n  ( 1,2 ),\n  ( 3,4 ),\n)\n', '#(\n  // @typstyle off\n  ( 1,2 ),\n  ( 3,4 ),\n)\n', '$\n  // @typstyle off\n  a+b   c \n$\n',
+    '$ x   + (/* @typstyle off */ a  +  b) $\n', '$ sin(/* @typstyle off */ a  +  b,   c   d) $\n', '$ x /* @typstyle off */ #f(a,   b)   +   y $\n',
+    '#let f() = /* @typstyle off */ { 1+1 }\n', '// @typstyle off\n#f( 1 ,2 ) #g( 1 ,2 )\n', '- a\n  // @typstyle off\n  #f( 1 ,2 )\n', '#[\n  // @typstyle off\n  #f( 1 ,2 )\n]\n',
+    '#show: /* @typstyle off */ it  =>  it\n', '#if /* @typstyle off */ a   ==  b { c }\n', '#(a: /* @typstyle off */ ( 1,2 ), b: ( 3,4 ))\n',
+    '#import "a.typ": /* @typstyle off */ b  ,  c\n', '#table(\n  // @typstyle off\n  [ a ] , [b],\n  [c], [d],\n)\n', '#x.y(/* @typstyle off */ ( 1,2 )).z\n',
+    '#{\n  // @typstyle off\n  x   =  1\n  y   =  2\n}\n', '/* @typstyle off */\n\n#f( 1 ,2 )\n', '= H /* @typstyle off */ #f( 1 ,2 )\n',
+]
+
+
+PROTECTABLE = set()      # kinds that cast to Expr or Pattern, plus Code and Math (filled from the real kind tables)
+
+
+def protected_texts(tree, out=None):
+    """reference semantics of the directive on a parsed tree: the source texts of the nodes that must come out verbatim"""
+    out = [] if out is None else out
+    kind, x = tree
+    if not isinstance(x, list):
+        return out
+    pending = False
+    for c in x:
+        if c[0] in ('LineComment', 'BlockComment'):
+            if '@typstyle off' in c[1]:
+                pending = True
+            continue
+        if pending and c[0] not in ('Space', 'Hash', 'Parbreak'):
+            # the property speaks of expressions, code bodies and equation bodies (whitespace - a paragraph break is whitespace - and `#` are skipped)
+            if c[0] in PROTECTABLE:
+                out.append(source_of(c))
+            pending = False
+            continue
+        protected_texts(c, out)
+    return out
+
+
 def tree_of(S, src):
     with tempfile.NamedTemporaryFile('w', suffix='.typ', delete=False, encoding='utf-8') as f:
         f.write(src)
@@ -78,12 +117,12 @@ def tree_of(S, src):
     return t if t[0] == 'Markup' else None
 
 
-def build(ctx, tree, kt, counter):
+def build(ctx, tree, kt, counter, concrete_ws=False):
     kind, x = tree
     k = kt.k(kind)
     if isinstance(x, list):
-        return Node(k, children=[build(ctx, c, kt, counter) for c in x])
-    if kind in ('Space', 'Parbreak'):
+        return Node(k, children=[build(ctx, c, kt, counter, concrete_ws) for c in x])
+    if kind in ('Space', 'Parbreak') and not concrete_ws:
         # same class per character: a line break stays some line break (CR LF pairs stay as they are), a blank stays some blank
         chars = []
         for j, ch in enumerate(x):
@@ -107,6 +146,9 @@ def explore(S, docs=None, want=('C01', 'C04', 'C05')):
     f_attr = S.find_fn(core, 'AttrStore::new')
     f_markup = S.find_fn(core, 'PrettyPrinter::convert_markup')
     found = []
+    PROTECTABLE.clear()
+    PROTECTABLE.update({kt.names[k] for k in kt.cast_variant['Expr']} | {kt.names[k] for k in kt.cast_variant.get('Pattern', {})} | {'Code', 'Math'})
+    PROTECTABLE.difference_update({'Space', 'Parbreak', 'Text', 'Linebreak'})
     coverage = dict(docs=0, decided=0, gaps=[])
     for src in (docs or DOCS):
         tree = tree_of(S, src)
@@ -116,10 +158,11 @@ def explore(S, docs=None, want=('C01', 'C04', 'C05')):
         coverage['docs'] += 1
 
         pairs = word_pairs(tree) if 'C08' in want else []
+        prot = protected_texts(tree) if 'C07' in want else []
 
-        def body(ctx, tree=tree, src=src, pairs=pairs):
+        def body(ctx, tree=tree, src=src, pairs=pairs, prot=prot):
             m = S.machine(core, STD, ctx)
-            root = build(ctx, tree, kt, [0])
+            root = build(ctx, tree, kt, [0], concrete_ws='C07' in want)
             attrs = m.call_fn(f_attr, [root])
             cfg = Agg('Config', None, (z3.BitVec('cfg_tab', 64), z3.BitVec('cfg_width', 64), 2, False), pp.CFG_NAMES)
             ctx.assume(z3.ULT(cfg.fields[0], 1 << 31))
@@ -135,6 +178,14 @@ def explore(S, docs=None, want=('C01', 'C04', 'C05')):
                 ctx.must_hold(False, 'C05:printer-panic', lambda mdl: dict(describe(mdl), panic=p.msg))
                 return
             S.absorb(m)
+            if 'C07' in want:
+                for mode, at in atoms_modes(d).items():
+                    texts = [a[1].concrete() for a in at if a[0] == 't' and a[1].is_concrete()]
+                    for ptxt in prot:
+                        ctx.must_hold(any(ptxt in t_ for t_ in texts), 'C07:protected-node-not-emitted-verbatim',
+                                      lambda mdl, mode=mode, at=at, ptxt=ptxt: dict(describe(mdl), layout=mode, protected=ptxt, atoms=show_atoms(at)[:300]))
+                        ctx.witness('protected node')
+                    ctx.must_hold(any('@typstyle off' in t for t in texts) or not prot, 'C07:directive-comment-lost', lambda mdl: describe(mdl))
             if 'C12' in want:
                 offs = D.indent_nest_offsets(d)
                 ctx.must_hold(b_and(*[i_eq(o, cfg.fields[0], 64) for o in offs]), 'C12:nest-offset-differs-from-indent-unit',
@@ -214,6 +265,11 @@ def confirm(S, info):
         if r[0] != 'ok':
             continue
         out = unhexs(r[1])
+        if info.get('protected'):
+            if info['protected'] not in out:
+                return dict(api='Typstyle::format_content', source=src, width=w, tab=t, output=out,
+                            what='the node after the directive (%s) is not reproduced verbatim: %s -> %s' % (show(info['protected']), show(src), show(out)))
+            continue
         if info.get('words'):
             w1, w2 = info['words']
             i1, i2 = out.find(w1), out.find(w2)
